@@ -28,7 +28,7 @@ func init() {
 		Property: "C14",
 		Explanation: "Pipeline obligations of the :: RDNSS wildcard (that the pairwise relation is a total order is NOT decided): R-C14-1 an address is skipped under exactly Is4, Deprecated, Temporary, Tentative; " +
 			"R-C14-2 best is folded with betterRDNSS(best, a) over every surviving element and an invalid final best is an error; R-C14-3 ranking table of betterRDNSS/isStable/isEUI64 (stability first; flags ValidForever, ManageTemporaryAddresses, StablePrivacy, EUI-64 bytes 11,12 = ff,fe; classes in order private, global unicast, link-local; only-current ⇒ current, only-best ⇒ best, ties ⇒ current.Less(best)); " +
-			"R-C14-4 the option's servers are [current()] ++ r.Servers in auto mode and r.Servers otherwise; parseRDNSS sorts static servers, does not store ::, rejects duplicates R-C14-5 listing failures are returned.",
+			"R-C14-4 the option's servers are [current()] ++ r.Servers in auto mode and r.Servers otherwise; parseRDNSS sorts static servers, does not store ::, rejects duplicates R-C14-5 listing failures are returned; R-C14-7 (linux) the Deprecated/Temporary/Tentative/stability flags of a listed address are the like-named IFA_F_* bits.",
 		Assumptions: []string{"Go type checker and go/ssa construction are correct", "netip.Addr predicates have their documented meaning"},
 		NotCovered:  []string{"that the pairwise comparator induces a total order (permutation independence)"},
 		Run:         runC14,
@@ -37,7 +37,7 @@ func init() {
 		Property: "C15",
 		Explanation: "Pipeline obligations of the ::/0 route expansion (the maximal-antichain semantics over all route lists is NOT decided): R-C15-1 a route is dropped under exactly Is4, IsSingleIP, covered-by-another, or already-emitted; " +
 			"R-C15-2 the covered test excludes the route itself, tests containment of the route in the other prefix, and requires the other prefix to be shorter; R-C15-3 each kept route is emitted once (membership test + insert, or compaction after sorting); " +
-			"R-C15-4 sorted ascending before return, errors propagate, one RouteInformation per element with the stanza's preference/lifetime; LoopbackRoutes considers up loopback interfaces and the main table R-C15-5 listing failures are returned; R-C15-6 the parser rejects overlapping or repeated static routes and a repeated ::/0 wildcard.",
+			"R-C15-4 sorted ascending before return, errors propagate, one RouteInformation per element with the stanza's preference/lifetime; LoopbackRoutes considers up loopback interfaces and the main table R-C15-5 listing failures are returned; R-C15-6 the parser rejects overlapping or repeated static routes and a repeated ::/0 wildcard; R-C15-7 (linux) routesByIndex turns every message of the kernel dump into exactly one Route with the dumped destination and length.",
 		Assumptions: []string{"Go type checker and go/ssa construction are correct", "netip.Prefix.Contains/Bits/Overlaps have their documented meaning"},
 		NotCovered:  []string{"the maximal non-overlapping set semantics over all route lists as a whole"},
 		Run:         runC15,
@@ -660,11 +660,15 @@ func checkOptionLiteral(c *Ctx, rule string, fn *ssa.Function, typ string, want 
 	c.R.Check(found, rule, name+":builds-"+typ, name, c.pos(fn.Pos()), fmt.Sprintf("literal found=%v", found), "one ndp."+typ+" per element", "anchor-missing")
 }
 
-func c13Flags(c *Ctx) {
+func c13Flags(c *Ctx) { addrFlags(c, "R-C13-5") }
+
+// addrFlags: the flags of system.IP are the like-named IFA_F_* bits of the netlink message (shared by C13
+// and C14: both wildcards decide eligibility on them).
+func addrFlags(c *Ctx, rule string) {
 	ab := c.P.Method("internal/system", "addresser", "AddressesByIndex")
 	if ab == nil {
 		if c.P.Cfg.GOOS == "linux" {
-			c.R.Fail("R-C13-5", "system.addresser.AddressesByIndex", "", "", "missing", "", "anchor-missing")
+			c.R.Fail(rule, "system.addresser.AddressesByIndex", "", "", "missing", "", "anchor-missing")
 		}
 		return
 	}
@@ -690,7 +694,7 @@ func c13Flags(c *Ctx) {
 	}
 	name := c.fname(ab)
 	done := false
-	for _, p := range c.pathsO("R-C13-5", ab, an.PathOpts{EmitCut: true}) {
+	for _, p := range c.pathsO(rule, ab, an.PathOpts{EmitCut: true}) {
 		if done {
 			break
 		}
@@ -742,11 +746,11 @@ func c13Flags(c *Ctx) {
 						}
 					}
 				}
-				c.R.Check(ok, "R-C13-5", name+":flag:"+k, name, c.pos(call.Pos()), fmt.Sprintf("%s ⇐ %v", k, v), fmt.Sprintf("Flags & %#x != 0 (the like-named IFA_F_* bit)", want[k]), "address flag read from the wrong kernel bit: eligibility and ranking use wrong facts")
+				c.R.Check(ok, rule, name+":flag:"+k, name, c.pos(call.Pos()), fmt.Sprintf("%s ⇐ %v", k, v), fmt.Sprintf("Flags & %#x != 0 (the like-named IFA_F_* bit)", want[k]), "address flag read from the wrong kernel bit: eligibility and ranking use wrong facts")
 			}
 		})
 	}
-	c.R.Check(done, "R-C13-5", name+":builds-IP", name, c.pos(ab.Pos()), fmt.Sprintf("IP literal found=%v", done), "system.IP built from rtnetlink attributes", "anchor-missing")
+	c.R.Check(done, rule, name+":builds-IP", name, c.pos(ab.Pos()), fmt.Sprintf("IP literal found=%v", done), "system.IP built from rtnetlink attributes", "anchor-missing")
 }
 
 // ---- C14 ------------------------------------------------------------------
@@ -754,6 +758,7 @@ func c13Flags(c *Ctx) {
 func runC14(c *Ctx) {
 	// the wildcard and the duplicate test work on the address: a zoned spelling must not slip past them
 	sharedRejections(c, "R-C14-6", "rdnss-zoned", "rdnss-wildcard-twice", "rdnss-duplicate")
+	addrFlags(c, "R-C14-7")
 	listingErrors(c, "R-C14-5", [][3]string{{"internal/plugin", "RDNSS", "current"}, {"internal/plugin", "RDNSS", "Apply"}, {"internal/system", "addresser", "AddressesByIndex"}})
 	cur := c.needMethod("R-C14-1", "internal/plugin", "RDNSS", "current")
 	if cur == nil {
@@ -1166,6 +1171,7 @@ func c14Compose(c *Ctx) {
 // ---- C15 ------------------------------------------------------------------
 
 func runC15(c *Ctx) {
+	c15RouteDump(c, "R-C15-7")
 	// "the same rule the configuration enforces for static routes": overlapping or repeated static routes are rejected
 	sharedRejections(c, "R-C15-6", "routes-overlap", "routes-wildcard-once")
 	listingErrors(c, "R-C15-5", [][3]string{{"internal/plugin", "Route", "current"}, {"internal/plugin", "Route", "Apply"}, {"internal/system", "addresser", "LoopbackRoutes"}, {"internal/system", "addresser", "routesByIndex"}})
@@ -1646,4 +1652,54 @@ func (c *Ctx) filteredUpLoopback(ph *ssa.Phi) bool {
 		nApp++
 	}
 	return nApp >= 1
+}
+
+
+// c15RouteDump (R-C15-7, linux): routesByIndex hands every route of the kernel
+// dump on: each iteration over the messages appends exactly one Route whose
+// Prefix is PrefixFrom(AddrFromSlice(Dst), DstLength) (or panics on a message
+// that violates the rtnetlink invariants). Dropping dump entries below the
+// plugin (a "first route per destination" filter, say) removes covering routes
+// before Route.current() can see them.
+func c15RouteDump(c *Ctx, rule string) {
+	if c.P.Cfg.GOOS != "linux" {
+		return
+	}
+	f := c.P.Method("internal/system", "addresser", "routesByIndex")
+	if f == nil {
+		c.R.Fail(rule, "system.addresser.routesByIndex", "", "", "method missing", "", "anchor-missing")
+		return
+	}
+	fn := c.fname(f)
+	n, bad := 0, ""
+	for _, p := range c.pathsO(rule, f, an.PathOpts{EmitCut: true}) {
+		if !p.Cut {
+			continue
+		}
+		n++
+		var elems []*an.Expr
+		p.Instrs(func(in ssa.Instruction) {
+			if call, ok := in.(*ssa.Call); ok {
+				if bi, ok := call.Call.Value.(*ssa.Builtin); ok && bi.Name() == "append" && strings.HasSuffix(typeStr(call.Type()), "system.Route") {
+					if e := p.Of(call); e.Op == an.OpAppend && len(e.Args) == 2 && e.Args[1].Op == an.OpStruct && e.Args[1].Name == "list" {
+						elems = append(elems, e.Args[1].Args...)
+					}
+				}
+			}
+		})
+		if len(elems) != 1 {
+			bad = fmt.Sprintf("an iteration over the dump appends %d routes (%s)", len(elems), atomsString(p))
+			continue
+		}
+		flds := raHeader(elems[0])
+		pfx := flds["Prefix"]
+		okPfx := pfx != nil && pfx.Op == an.OpCall && pfx.Fn != nil && pfx.Fn.String() == "net/netip.PrefixFrom" && len(pfx.Args) == 2 &&
+			pfx.Args[0].Contains(func(x *an.Expr) bool { return x.Op == an.OpCall && x.Fn != nil && x.Fn.String() == "net/netip.AddrFromSlice" && len(x.Args) == 1 && x.Args[0].IsField("Dst") }) &&
+			pfx.Args[1].Contains(func(x *an.Expr) bool { return x.IsField("DstLength") })
+		if !okPfx {
+			bad = "the route's prefix is " + shortExpr(pfx)
+		}
+	}
+	c.R.Check(n >= 1 && bad == "", rule, fn+":every-dumped-route-listed", fn, c.pos(f.Pos()), fmt.Sprintf("%d iteration path(s); %s", n, bad),
+		"each message of the route dump yields exactly one Route with Prefix = PrefixFrom(AddrFromSlice(Dst), DstLength)", "a loopback route of the dump never reaches the ::/0 expansion (a covering route is lost, a covered one is advertised)")
 }
